@@ -215,9 +215,10 @@ def joinName (targ name : Str) : Str := targ ++ (if targ.isEmpty then [] else [c
 def afterData (st : St) (p : Path) (np : Str) (size : Int) (count : Nat) (pendRev writtenRev : Str) :
     St :=
   let w := (if count ≠ 0 then pendRev ++ writtenRev else writtenRev).reverse
-  let st := if w.isEmpty then st else { st with fs := setData st.fs p (overwrite (fileData st.fs p) w) }
-  if size < 0 then { st.reply (.err .trunc) with phase := .resp np true }       -- EINVAL
-  else { st with fs := setData st.fs p (resize (fileData st.fs p) size.toNat), phase := .resp np false }
+  let fs1 := if w.isEmpty then st.fs else setData st.fs p (overwrite (fileData st.fs p) w)
+  if size < 0 then                                                              -- EINVAL
+    { st with fs := fs1, out := .err .trunc :: st.out, phase := .resp np true }
+  else { st with fs := setData fs1 p (resize (fileData fs1 p) size.toNat), phase := .resp np false }
 
 /-- a `C` record: open the file and start the data loop -/
 def handleFile (o : Opts) (st : St) (np : Str) (mode : Nat) (size : Int) : St :=
@@ -248,39 +249,59 @@ def handleDir (o : Opts) (st : St) (np : Str) (mode : Nat) : St :=
     | none => { st.reply (.err .path) with phase := .start }
     | some (fs', p) => enter o ({ st with fs := fs' }.touch p) np
 
+/-- what the record loop makes of one complete record -/
+inductive Rec where
+  | msg                           -- `\01...`: an error message of the peer, skipped
+  | stop                          -- `\02...`: the peer gave up
+  | exit                          -- `E...`: leave the directory
+  | times (mt atm : Time)         -- a `T` record
+  | timesBad (w : Why)            -- a `T` record that does not parse (`setimes` is already counted)
+  | ctl (isDir : Bool) (mode : Nat) (size : Int) (name : Str)
+  | bad (w : Why)
+deriving DecidableEq
+
+/-- parse the record in `buf` (`line`: its bytes including the last one read, `ch`) -/
+def classify (line : Str) (ch : UInt8) : Rec :=
+  let b0 := line.headD 0
+  if b0 = 1 then .msg
+  else if b0 = 2 then .stop
+  else if b0 = cE then .exit
+  else
+    let line := if ch = cNl then line.dropLast else line        -- `if (ch == '\n') *--cp = 0;`
+    match line.takeWhile (· ≠ 0) with                            -- a C string ends at the first NUL
+    | [] => .bad .expected
+    | c :: body =>
+      if c = cT then
+        match parseTimes body with
+        | .error w => .timesBad w
+        | .ok (mt, atm) => .times mt atm
+      else if c = cC || c = cD then
+        match parseCtl body with
+        | .error w => .bad w
+        | .ok (mode, size, name) => .ctl (c == cD) mode size name
+      else .bad .expected
+
 /-- a complete record is in `buf` (`line`: its bytes, `ch`: the last byte read) -/
 def handleRecord (o : Opts) (st : St) (line : Str) (ch : UInt8) : St :=
   match st.stack with
   | [] => { st with phase := .done }
   | f :: rest =>
-    let b0 := line.headD 0
-    if b0 = 1 then { st with phase := .start }
-    else if b0 = 2 then leave o st
-    else if b0 = cE then leave o (st.reply .ack)
-    else
-      let line := if ch = cNl then line.dropLast else line
-      let cstr := line.takeWhile (· ≠ 0)
-      match cstr with
-      | [] => screwup o st .expected
-      | c :: body =>
-        if c = cT then
-          let st := { st with stack := { f with setimes := true } :: rest }
-          match parseTimes body with
-          | .error w => screwup o st w
-          | .ok (mt, atm) =>
-            { st.reply .ack with stack := { f with setimes := true, mt := mt, atm := atm } :: rest,
-                                 phase := .start }
-        else if c = cC || c = cD then
-          match parseCtl body with
-          | .error w => screwup o st w
-          | .ok (mode, size, name) =>
-            if !nameOk o.repaired name then screwup o st .badName
-            else
-              let np := if f.targisdir then joinName f.targ name else f.targ
-              -- namebuf has `need = strlen(targ) + strlen(cp) + 250` bytes
-              let st := st.flag (f.targisdir && decide (f.targ.length + name.length + 250 < np.length + 1))
-              if c = cD then handleDir o st np mode else handleFile o st np mode size
-        else screwup o st .expected
+    match classify line ch with
+    | .msg => { st with phase := .start }
+    | .stop => leave o st
+    | .exit => leave o (st.reply .ack)
+    | .bad w => screwup o st w
+    | .timesBad w => screwup o { st with stack := { f with setimes := true } :: rest } w
+    | .times mt atm =>
+      { st with out := .ack :: st.out, stack := { f with setimes := true, mt := mt, atm := atm } :: rest,
+                phase := .start }
+    | .ctl isDir mode size name =>
+      if !nameOk o.repaired name then screwup o st .badName
+      else
+        let np := if f.targisdir then joinName f.targ name else f.targ
+        -- namebuf has `need = strlen(targ) + strlen(cp) + 250` bytes
+        let st := st.flag (f.targisdir && decide (f.targ.length + name.length + 250 < np.length + 1))
+        if isDir then handleDir o st np mode else handleFile o st np mode size
 
 /-- `_response` returned 0 after a file: pending times, then the final acknowledgement -/
 def afterResponse (o : Opts) (st : St) (np : Str) (displayed : Bool) : St :=
@@ -296,8 +317,8 @@ def afterResponse (o : Opts) (st : St) (np : Str) (displayed : Bool) : St :=
 /-- `read` failed inside the data loop: `_error("%m"); goto end_server` (what was flushed stays) -/
 def dataEOF (o : Opts) (st : St) (p : Path) (writtenRev : Str) : St :=
   let w := writtenRev.reverse
-  let st := if w.isEmpty then st else { st with fs := setData st.fs p (overwrite (fileData st.fs p) w) }
-  leave o (st.reply (.err .read))
+  let fs1 := if w.isEmpty then st.fs else setData st.fs p (overwrite (fileData st.fs p) w)
+  leave o { st with fs := fs1, out := .err .read :: st.out }
 
 /-- one input byte -/
 def step (o : Opts) (st : St) (b : UInt8) : St :=
@@ -309,7 +330,7 @@ def step (o : Opts) (st : St) (b : UInt8) : St :=
   | .line cp bufRev =>
     let st := st.flag (decide (BUFSZ ≤ cp))                  -- `*cp++ = ch`
     if cp + 1 < BUFSZ - 1 && b ≠ cNl then { st with phase := .line (cp + 1) (b :: bufRev) }
-    else handleRecord o (st.flag (decide (BUFSZ ≤ cp + 1)))   -- `*cp = 0`
+    else handleRecord o { st.flag (decide (BUFSZ ≤ cp + 1)) with phase := .start }   -- `*cp = 0`
            (b :: bufRev).reverse b
   | .data p np size left amt count fill pendRev writtenRev =>
     let st := st.flag (decide (o.cnt ≤ fill))               -- `read(infd, cp, amt)` into `bp->buf`
